@@ -442,6 +442,8 @@ package document
 //@ requires t != nil
 //@ modifies nothing
 //@ ensures deepcopy(result, t)
+// the copy satisfies the ownership invariants every editor requires (whatever t looks like): copy-then-edit is covered
+//@ ensures rowsOwn(result) && cellPropsOwn(result) && rowPropsOwn(result) && cellParasOwn(result) && paraRunsOwn(result)
 
 // GetCellRange: the rectangle is accepted exactly when it lies inside the grid of every row it touches;
 // the result has one entry per cell of the rectangle and nothing that existed before the call is written.
